@@ -182,3 +182,18 @@ Fixpoint admissibleb (sh : shell) (s : string) : bool :=
   end.
 
 Definition admissible (sh : shell) (s : string) : Prop := admissibleb sh s = true.
+
+(** pwsh, exactly: the strings that contain no smart double quote (U+201C, U+201D, U+201E); the
+    pairwise class above is coarser (any E2 80).  [outside_known_class] is what the checks use to
+    attribute a failure to a known finding. *)
+Fixpoint smart_free (s : string) : bool :=
+  match s with
+  | EmptyString => true
+  | String c t => negb (Ascii.eqb c (ch 226) && is_smart_quote_tail (shd t) (shd (stl t))) && smart_free t
+  end.
+
+Definition outside_known_class (sh : shell) (s : string) : bool :=
+  match sh with
+  | Pwsh => smart_free s
+  | _ => admissibleb sh s
+  end.
